@@ -1117,6 +1117,7 @@ def pure_paging(line, ans):
         sz = int(toks[1])
         if sz < 0 and ans != "invalid_argument":
             f.append(("c13:negative-size-accepted", "page_size %d -> %s" % (sz, ans)))
+            f.append(("c17:negative-size-accepted", "page_size %d -> %s" % (sz, ans)))
         if ans.startswith("ok"):
             eff = int(ans.split()[1])
             exp = 20 if sz == 0 else min(sz, 1000)
